@@ -119,6 +119,10 @@ def wrote_everything(c):
 def extra_checks(res, tier, seed, known, log):
     from pyvc import runner
     runner.cli_grid(res, "C06", tier, seed, known, quick=16, thorough=150)
+    # what a worker process gets under the spawn / forkserver start methods is the proxy writer rebuilt from its pickled
+    # state (this sandbox's runs use fork, where the object itself is inherited): runtime contract on that round trip
+    runner.runtime_standin(res, "C06", "cfiles", "proxy_record_writer", seed, 1500 if tier == "quick" else 20000, 60 if tier == "quick" else 300,
+                           label="proxy record writer: requested format, pickled state = the keyword arguments given, rebuilt copy writes the same bytes (bounded)")
 
 
 @contract("runners.py", "OrderedChunkWriter.__init__", props=["C06"])
